@@ -8,6 +8,12 @@ BASE = ("go/types + go/ssa (x/tools v0.29.0) faithful IR; stdlib contracts as do
         "(DESIGN.md section 3); caller-supplied io.Reader/io.Writer obey their contracts")
 
 CHECKS = {
+ "C02": dict(level="other", ref="§4 C02",
+   text="Oracle: the MQTT v5.0 layout table carried by the checker (type codes and reserved bits, ordered fields with wire kinds and presence rules, allowed property sets with kinds), keyed by exported names and sharing nothing with the library. For every abstract well-formed packet state (C01's generator) the encoder's event sequence, obtained by evaluating its SSA form with the wire primitives observed, is walked against the table: first byte, remaining length = bytes that follow, field order and sources (through the exported accessors), presence of optional items (CONNECT flags, QoS), property identifiers/kinds/uniqueness/sources, property length = properties that follow, and the optional-section chain reason code <= property length <= properties. Exported identifier constants are compared with the 27 defined ones. Primitive encodings are C01 R1.4 / C15.",
+   technique="static analysis: abstract interpretation of the encoders' SSA over a layout domain, compared with a specification table"),
+ "C03": dict(level="other", ref="§4 C03",
+   text="Oracle: abstract valid frames generated from the specification table, not from the library's encoder: per packet type no properties / each allowed property alone / all ascending and descending (repeatable ones twice) / explicit zero values / legal short forms (PUBACK family 2,3,4; DISCONNECT 0,1; AUTH 0; PUBLISH with/without id and payload; CONNECT with/without will and credentials). Each is a token stream (kinds and widths from the specification, values as tags); the decoder's SSA form is evaluated on it with the wire primitives replaced by their contracts; it must accept, consume everything, and every value the frame carries must be what the exported accessors then report. Structural half of the zero-value clause: no wire decoder rejects input because of the decoded value. Boundary lengths rest on the no-wrap proof of the length-prefixed decoder.",
+   technique="static analysis: abstract interpretation of the decoders' SSA on specification-derived abstract token streams"),
  "C01": dict(level="other", ref="§4 C01",
    text="Round-trip equality of runtime values is not statically decidable here; decided are its structural necessary conditions, by abstract co-simulation on the SSA form. Packet states are built by evaluating the public constructor and setters on abstract values (lengths with identity tags, representative integers; none/all/each setter alone/all-but-one/all subsets of guard-relevant setters, with and without a will). The encoder is evaluated with the wire primitives observed (field-level event sequence); the decoder's own code (guards, sequential reader, property loop, post-processing) is evaluated on the resulting token stream with the wire primitives replaced by their contracts. Checked: the decoder reads exactly what was written into destinations of the same wire kind and consumes the frame without error; every exported accessor (incl. the nested will) returns the same on the decoded state; every settable field is emitted in some state; re-encoding gives the same token stream; per wire kind the encoder/decoder primitives are structurally inverse (same N and byte order, prefix=len, region [2,2+len)).",
    technique="static analysis: abstract interpretation of encoder and decoder SSA over a layout domain (abstract co-simulation) + structural pairing rules for the wire primitives"),
